@@ -246,8 +246,14 @@ class Runner:
             out = W(self.x(self.noise))
             cost = sum(W.get_cost(n) for n in W.cost_specification)
             loss = (out ** 2).mean() + 1e-4 * cost
-            loss.backward()
-            o1.step(); o2.step()
+            try:
+                loss.backward()
+                o1.step(); o2.step()
+            except RuntimeError as ex:
+                # MPS with disable_sampling keeps the coefficient tensor (and its autograd graph) of an earlier forward
+                # pass: a second backward through it is impossible; the step degenerates to a forward pass
+                if 'backward through the graph a second time' not in str(ex):
+                    raise
             self.snap(('fwd', self.noise))
             self.snap(('vals',) + values(self.st))
         elif k == 'fwd':
@@ -392,7 +398,8 @@ def run_case(case):
     cfg, ops = case['cfg'], case['ops']
     R = Runner(cfg)
     st0 = R.st
-    res = {'fresh': {'plain': [n for n, _ in st0['plain']], 'digests': [digest(t) for _, t in st0['plain']],
+    res = {'fresh': {'bn': any(isinstance(mm, nn.modules.batchnorm._BatchNorm) and mm.track_running_stats for mm in R.W.modules()),
+                     'plain': [n for n, _ in st0['plain']], 'digests': [digest(t) for _, t in st0['plain']],
                      'masks': [{'names': k['names'], 'kind': k['kind'], 'p': mask_param(k), 'ka': frl(k['mod']._keep_alive),
                                 'c': ([frl(r) for r in (k['mod']._c_beta if k['kind'] == 'TimeM' else k['mod']._c_gamma)] if k['kind'] in ('TimeM', 'DilM') else []),
                                 'fixed': frl(k['mod']._fixed_alpha) if k['kind'] == 'FrozenFeat' else []} for k in st0['masks']],
